@@ -315,10 +315,23 @@ def run_vignetting(part, unit):
                         D = np.stack([sg.L[0], sg.M[0], sg.N[0]], axis=1)
                         t = (epl - O[:, 2]) / D[:, 2]
                         hit = (O + t[:, None] * D)[:, :2]
-                        aims[(vx, vy, name, Hy)] = hit
-                        base = aims[(0.0, 0.0, name, Hy)]
                         c = f"object={'infinite' if math.isinf(obj) else 'finite'},field={ft}"
                         det = dict(obj=obj, ftype=ft, vx=vx, vy=vy, distribution=name, Hy=Hy)
+                        aims[(vx, vy, name, Hy)] = hit
+                        base = aims[(0.0, 0.0, name, Hy)]
+                        # vignetting changes the aim points only: the bundle still travels at Hy x max field (infinite object) or
+                        # still starts on the object point (finite object)
+                        if math.isinf(obj):
+                            th = math.radians(Hy * mf)
+                            exp_d = np.array([0.0, math.sin(th), math.cos(th)])
+                            if np.max(np.abs(D - exp_d)) > TOL:
+                                part.violation(PID, 'field-angle', 'RayGenerator.generate_rays', c + ',vignetted', det,
+                                               observed=D[int(np.argmax(np.max(np.abs(D - exp_d), axis=1)))], expected=exp_d, tol=TOL)
+                        else:
+                            spread = float(np.max(np.abs(O - O[0])))
+                            if spread > TOL * max(1.0, abs(obj)):
+                                part.violation(PID, 'rays-start-on-the-object-point', 'RayGenerator.generate_rays', c + ',vignetted', det,
+                                               observed=spread, expected=0.0, tol=TOL)
                         if hit.shape != base.shape:
                             part.violation(PID, 'vignetting-keeps-count', 'Optic.trace', c, det, observed=hit.shape,
                                            expected=base.shape)
